@@ -2,25 +2,26 @@
 (* Trace specification for the approximate entry points and the spanner observations (C05 C06 C15). *)
 EXTENDS Approx, Components, Json, IOUtils
 Tr == ndJsonDeserialize(IOEnv.TRACE)
-VARIABLES l, cl, skip
-tvars == <<l, cl, skip, pc, G, out, basis, kk>>
+VARIABLES l, cl, skip, deg, wsum          \* deg / wsum: see Trace_Mcb
+tvars == <<l, cl, skip, deg, wsum, pc, G, out, basis, kk>>
 Report(v) == IF v = {} THEN TRUE ELSE PrintT(<<"REJECT", cl, l, v>>)
 GraphOf(ev) == [n |-> ev.n, edges |-> ev.edges]
-TInit == MInit /\ kk = 1 /\ l = 1 /\ cl = 0 /\ skip = FALSE
+TInit == MInit /\ kk = 1 /\ l = 1 /\ cl = 0 /\ skip = FALSE /\ deg = FALSE /\ wsum = 0
 TCall(ev) ==
-  /\ ev.e = "Call" /\ cl' = l
+  /\ ev.e = "Call" /\ cl' = l /\ deg' = FALSE /\ wsum' = 0
   /\ IF InDomain(GraphOf(ev))
        THEN pc' = "run" /\ G' = GraphOf(ev) /\ out' = <<>> /\ basis' = <<>> /\ skip' = FALSE /\ kk' = ev.k
        ELSE PrintT(<<"REJECT", l, l, {"bad-input"}>>) /\ skip' = TRUE /\ UNCHANGED avars
 TEmit(ev) ==
   /\ ev.e = "Emit" /\ UNCHANGED <<cl, kk>>
-  /\ IF skip THEN UNCHANGED <<skip, pc, G, out, basis>>
+  /\ wsum' = (IF skip /\ ~deg THEN wsum ELSE AddW(wsum, ev.cyc))
+  /\ IF skip THEN UNCHANGED <<skip, deg, pc, G, out, basis>>
      ELSE LET v == AEmitViol(ev.cyc) IN
-          IF v = {} THEN Emit(ev.cyc) /\ UNCHANGED skip
-          ELSE Report(v) /\ skip' = TRUE /\ UNCHANGED mvars
+          IF v = {} THEN Emit(ev.cyc) /\ UNCHANGED <<skip, deg>>
+          ELSE Report(v) /\ skip' = TRUE /\ deg' = TRUE /\ UNCHANGED mvars
 TEnd(ev) ==
-  /\ ev.e \in {"Return", "Threw", "Crash"} /\ UNCHANGED <<cl, kk>>
-  /\ (skip \/ Report(CASE ev.e = "Return" -> AReturnViol(ev) [] ev.e = "Threw" -> AThrewViol [] OTHER -> {"crash"}))
+  /\ ev.e \in {"Return", "Threw", "Crash"} /\ UNCHANGED <<cl, kk, wsum>> /\ deg' = FALSE
+  /\ (IF skip THEN (IF deg /\ ev.e = "Return" THEN Report(ADegradedReturnViol(ev, wsum)) ELSE TRUE) ELSE Report(CASE ev.e = "Return" -> AReturnViol(ev) [] ev.e = "Threw" -> AThrewViol [] OTHER -> {"crash"}))
   /\ skip' = FALSE /\ pc' = "idle" /\ UNCHANGED <<G, out, basis>>
 TSpanner(ev) ==
   /\ ev.e = "Spanner" /\ cl' = l
@@ -29,7 +30,7 @@ TSpanner(ev) ==
          v == IF ~InDomain(g) THEN {"bad-input"} ELSE
               (IF ev.sn # ev.n THEN {"spanner-vertex-set-differs"} ELSE {}) \cup SpannerViol(g, ev.k, ev.kept, ev.dropped)
      IN IF v = {} THEN TRUE ELSE PrintT(<<"REJECT", l, l, v>>)
-  /\ UNCHANGED <<skip, pc, G, out, basis, kk>>
+  /\ UNCHANGED <<skip, deg, wsum, pc, G, out, basis, kk>>
 TNext == /\ l <= Len(Tr) /\ l' = l + 1
          /\ LET ev == Tr[l] IN TCall(ev) \/ TEmit(ev) \/ TEnd(ev) \/ TSpanner(ev)
 TSpec == TInit /\ [][TNext]_tvars
